@@ -15,6 +15,34 @@ class ModErr(Exception):
     pass
 
 
+class Gauge:
+    """holds a lock: picklable only through the reducer registered below with copyreg - at import time of THIS module, which a
+    worker's child process imports after pyworkers itself"""
+    def __init__(self, level):
+        import threading
+        self.level = level
+        self.lock = threading.Lock()
+
+    def __eq__(self, o):
+        return type(o) is type(self) and o.level == self.level
+
+
+def _reduce_gauge(g):
+    return (Gauge, (g.level,))
+
+
+import copyreg  # noqa: E402
+copyreg.pickle(Gauge, _reduce_gauge)
+
+
+class LateGauge(Gauge):
+    """its reducer is registered only when a value is first made - in a worker's child that is long after pyworkers was imported"""
+
+
+def _reduce_late(g):
+    return (LateGauge, (g.level,))
+
+
 class SlowRebuild:
     """a value that takes a while to rebuild wherever it is unpickled (the parent of a process / remote worker)"""
     def __init__(self, x):
@@ -50,6 +78,9 @@ SIZES = {'b0': 0, 'b1': 1, 'b4k': 4096, 'b64k-1': 65535, 'b64k': 65536, 'b64k+1'
 
 
 def make_value(key):
+    if key == 'copyreg_late':
+        copyreg.pickle(LateGauge, _reduce_late)
+        return LateGauge(9)
     if key in SIZES:
         n = SIZES[key]
         return bytes((i * 31 + 7) % 251 for i in range(min(n, 4096))) * (n // 4096) + bytes(n % 4096) if n else b''
@@ -57,7 +88,7 @@ def make_value(key):
         'none': None, 'zero': 0, 'false': False, 'empty_str': '', 'empty_list': [], 'empty_dict': {}, 'float': 0.0,
         'int': 12345678901234567890, 'str': 'héllo', 'tuple': (1, (2, 3), 'x'),
         'nested': {'a': [1, 2, {'b': (None, False)}], 'c': {1, 2}, 'd': b'\x00\xff'},
-        'point': Point(1, [2, 3]), 'points': [Point(0, 0), Point(1, 1)], 'slowreb': SlowRebuild(5),
+        'point': Point(1, [2, 3]), 'points': [Point(0, 0), Point(1, 1)], 'slowreb': SlowRebuild(5), 'copyreg': Gauge(3), 'copyreg_nested': {'g': [Gauge(1), Gauge(2)]},
         'datetime': datetime.datetime(2020, 1, 2, 3, 4, 5), 'decimal': decimal.Decimal('1.50'),
     }[key]
 
